@@ -118,13 +118,23 @@ class Gen:
         if depth <= 0 or r < 0.3:
             return self.fix_in(self.leaf())
         style = self.rng.choice(['fn', 'op', 'chain'])
-        if r < 0.55:
-            return ['and', self.cond(depth - 1), self.cond(depth - 1), style]
-        if r < 0.8:
-            return ['or', self.cond(depth - 1), self.cond(depth - 1), style]
-        if self.neg:
-            return ['not', self.cond(depth - 1), self.rng.choice(['fn', 'op'])]
-        return ['and', self.cond(depth - 1), self.cond(depth - 1), style]
+
+        def const():
+            # now and then ONE operand of and / or is a CONSTANT (and_(c, flag) / and_(c, not_(flag)) with a Python bool - and_ / or_
+            # document SymbolicExpression | bool): read as a boolean.  Every generated condition still mentions a variable.
+            if self.p_lit > 0 and self.rng.random() < 0.06:
+                k = ['truth', ['lit', self.rng.choice([True, False, False])]]
+                return ['not', k, 'fn'] if self.neg and self.rng.random() < 0.3 else k
+            return None
+        if r < 0.8 or not self.neg:
+            k = const()
+            l, r_ = self.cond(depth - 1), (k if k is not None else self.cond(depth - 1))
+            if k is not None:
+                style = 'fn'                 # the operators & | ~ of a Python constant are Python's own
+                if self.rng.random() < 0.5:
+                    l, r_ = r_, l
+            return ['and' if (r < 0.55 or r >= 0.8) else 'or', l, r_, style]
+        return ['not', self.cond(depth - 1), self.rng.choice(['fn', 'op'])]
 
 
 def cond_keys(c, acc):
@@ -661,6 +671,35 @@ def gen_case_concat(rng, tier):
     return dict(heap=heap, doms=doms, binders=binders, sel=sel, cond=cond, form=form, list_items=rng.random() < 0.6)
 
 
+def gen_case_disjunction_chain(rng, tier=None):
+    """a CHAIN of disjunctions (random association, now and then a conjunction inside) of 3-5 literal-free comparisons, each over two
+    different variables out of three, small domains, a PROJECTION onto one or two of the variables: on re-evaluation the inner
+    disjunctions - evaluated with false rows on, as left operands of the enclosing ones - are answered from their right-side caches,
+    true and false rows interleaved, and the replayed rows pass the de-duplication of the operators above them"""
+    nobj = rng.randint(3, 6)
+    heap = gen_heap(rng, nobj, falsy=True)
+    for o in heap:
+        o[0], o[1] = rng.randint(0, 2), rng.randint(0, 2)
+        o[8] = o[0] >= 2
+    keys = [1, 2, 3]
+    doms = [[k, rng.sample(range(nobj), rng.randint(1, min(3, nobj)))] for k in keys]
+
+    def leaf():
+        x, y = rng.sample(keys, 2)
+        return ['cmp', rng.choice(['<', '<', '==', '!=', '>=']), ['map', ['f', F[rng.choice('ab')]], ['var', x]],
+                ['map', ['f', F[rng.choice('ab')]], ['var', y]]]
+    parts = [leaf() for _ in range(rng.randint(3, 5))]
+    while len(parts) > 1:
+        i = rng.randrange(len(parts) - 1)
+        k = 'or' if rng.random() < 0.85 else 'and'
+        parts[i:i + 2] = [[k, parts[i], parts[i + 1], rng.choice(['fn', 'op'])]]
+    cond = parts[0]
+    used = cond_keys(cond, set())
+    sel = rng.sample(sorted(used), rng.randint(1, max(1, len(used) - 1)))
+    return dict(heap=heap, doms=[d for d in doms if d[0] in used], binders=[['var', k] for k in keys if k in used],
+                sel=[['var', k] for k in sel], cond=cond, form='set_of')
+
+
 def gen_case_join(rng, tier=None):
     """literal-free joins: three variables over larger domains, attribute values in {0, 1} (so that equalities hold often),
     full binary and/or trees of depth 2-3 whose leaves compare attributes of one or two variables; every variable selected.
@@ -857,8 +896,12 @@ def gen_case_object_join(rng, tier=None):
     one = lambda k: ['cmp', rng.choice(['==', '!=']), ['map', ['f', F[rng.choice('ab')]], ['var', k]], ['lit', rng.randint(0, 1)]]
     peer = ['map', ['f', F['peer']], ['var', r]]
     join = ['cmp', rng.choice(['==', '==', '!=']), ['var', q], peer] if rng.random() < 0.75 else ['cmp', '==', peer, ['var', q]]
-    shape = rng.randrange(4)
-    if shape == 0:
+    shape = rng.randrange(6)
+    if shape >= 4:
+        # a plain conjunction: the join is evaluated WITHOUT false rows (an equality against a free variable's own domain), before or
+        # after a condition on one of its variables
+        cond = ['and', one(rng.choice([p, r])), join, 'fn'] if shape == 4 else ['and', join, one(rng.choice([p, q, r])), 'fn']
+    elif shape == 0:
         cond = ['or', one(p), join, rng.choice(['fn', 'op'])]
     elif shape == 1:
         cond = ['or', ['and', one(p), join, 'fn'], one(p), 'fn']
@@ -870,8 +913,13 @@ def gen_case_object_join(rng, tier=None):
     if rng.random() < 0.3:
         sel = sel[:2]
     used = cond_keys(cond, set())
-    return dict(heap=heap, doms=[d for d in doms if d[0] in used], binders=[['var', k] for k in keys if k in used],
-                sel=[t for t in sel if t[1] in used], cond=cond, form='set_of')
+    c = dict(heap=heap, doms=[d for d in doms if d[0] in used], binders=[['var', k] for k in keys if k in used],
+             sel=[t for t in sel if t[1] in used], cond=cond, form='set_of')
+    if rng.random() < 0.5:
+        # the objects compare EQUAL by value (a user __eq__ over a, b) although they are distinct objects: the join q == r.peer holds
+        # for every q that EQUALS r.peer, not only for the object itself (qcase.value_equal_view is the models' reading)
+        c['value_equal'] = c['value_equal_join'] = True
+    return c
 
 
 def gen_case_negated_conjunction(rng, tier=None):
